@@ -51,6 +51,9 @@ impl<T> ArcSwap<T> {
     #[verifier::external_body] pub fn load(&self) -> (r: Arc<T>) ensures *r == self.cur() { unimplemented!() }
     #[verifier::external_body] pub fn store(&mut self, v: Arc<T>) ensures final(self).cur() == *v { unimplemented!() }
 }
+impl ArcSwap<HashMap<u64, Arc<PseudoInode>>> {
+    #[verifier::external_body] pub fn load_clone(&self) -> (r: HashMap<u64, Arc<PseudoInode>>) ensures r@ == self.cur()@ { unimplemented!() }
+}
 #[verifier::external_body] pub struct AtomicU64 { _p: u8 }
 impl AtomicU64 {
     pub uninterp spec fn cur(&self) -> u64;
@@ -223,10 +226,13 @@ spec fn wf_m(m: Map<u64, Arc<PseudoInode>>, root: Arc<PseudoInode>, h: PHeap) ->
 spec fn kids_upto(s: Seq<StV>, m: Map<u64, Arc<PseudoInode>>, n: int, k: u64) -> Seq<Arc<PseudoInode>> decreases n {
     if n <= 0 { Seq::empty() } else { let r = kids_upto(s, m, n - 1, k); if s[n - 1].parent == k { r.push(m[s[n - 1].ino]) } else { r } }
 }
+spec fn kid_src(s: Seq<StV>, m: Map<u64, Arc<PseudoInode>>, n: int, k: u64, c: Arc<PseudoInode>) -> bool {
+    exists|j: int| 0 <= j < n && (#[trigger] s[j]).parent == k && c == m[s[j].ino]
+}
 proof fn lemma_kids_upto(s: Seq<StV>, m: Map<u64, Arc<PseudoInode>>, n: int, k: u64)
     requires 0 <= n <= s.len(), forall|j: int| 0 <= j < s.len() ==> m.contains_key((#[trigger] s[j]).ino) && m[s[j].ino].ino == s[j].ino,
              forall|i: int, j: int| 0 <= i < j < s.len() ==> (#[trigger] s[i]).ino < (#[trigger] s[j]).ino
-    ensures forall|x: int| 0 <= x < kids_upto(s, m, n, k).len() ==> exists|j: int| 0 <= j < n && (#[trigger] s[j]).parent == k && kids_upto(s, m, n, k)[x] == m[s[j].ino],
+    ensures forall|x: int| 0 <= x < kids_upto(s, m, n, k).len() ==> kid_src(s, m, n, k, #[trigger] kids_upto(s, m, n, k)[x]),
             forall|j: int| 0 <= j < n && (#[trigger] s[j]).parent == k ==> kids_upto(s, m, n, k).contains(m[s[j].ino]),
             incr(kid_inos(kids_upto(s, m, n, k))),
             forall|x: int| 0 <= x < kids_upto(s, m, n, k).len() && n < s.len() ==> (#[trigger] kids_upto(s, m, n, k)[x]).ino < s[n].ino,
@@ -238,8 +244,8 @@ proof fn lemma_kids_upto(s: Seq<StV>, m: Map<u64, Arc<PseudoInode>>, n: int, k: 
         if s[n - 1].parent == k {
             let c = m[s[n - 1].ino];
             assert(f == r.push(c));
-            assert forall|x: int| 0 <= x < f.len() implies exists|j: int| 0 <= j < n && (#[trigger] s[j]).parent == k && f[x] == m[s[j].ino] by {
-                if x < r.len() { let j = choose|j: int| 0 <= j < n - 1 && (#[trigger] s[j]).parent == k && r[x] == m[s[j].ino]; assert(s[j].parent == k && f[x] == m[s[j].ino]); }
+            assert forall|x: int| 0 <= x < f.len() implies kid_src(s, m, n, k, #[trigger] f[x]) by {
+                if x < r.len() { assert(kid_src(s, m, n - 1, k, r[x])); let j = choose|j: int| 0 <= j < n - 1 && (#[trigger] s[j]).parent == k && r[x] == m[s[j].ino]; assert(s[j].parent == k && f[x] == m[s[j].ino]); }
                 else { assert(s[n - 1].parent == k && f[x] == m[s[n - 1].ino]); }
             }
             assert forall|j: int| 0 <= j < n && (#[trigger] s[j]).parent == k implies f.contains(m[s[j].ino]) by {
@@ -254,8 +260,8 @@ proof fn lemma_kids_upto(s: Seq<StV>, m: Map<u64, Arc<PseudoInode>>, n: int, k: 
             }
         } else {
             assert(f == r);
-            assert forall|x: int| 0 <= x < f.len() implies exists|j: int| 0 <= j < n && (#[trigger] s[j]).parent == k && f[x] == m[s[j].ino] by {
-                let j = choose|j: int| 0 <= j < n - 1 && (#[trigger] s[j]).parent == k && r[x] == m[s[j].ino]; assert(s[j].parent == k && f[x] == m[s[j].ino]);
+            assert forall|x: int| 0 <= x < f.len() implies kid_src(s, m, n, k, #[trigger] f[x]) by {
+                assert(kid_src(s, m, n - 1, k, r[x])); let j = choose|j: int| 0 <= j < n - 1 && (#[trigger] s[j]).parent == k && r[x] == m[s[j].ino]; assert(s[j].parent == k && f[x] == m[s[j].ino]);
             }
             assert forall|x: int| 0 <= x < f.len() && n < s.len() implies (#[trigger] f[x]).ino < s[n].ino by { assert(r[x].ino < s[n - 1].ino); assert(s[n - 1].ino < s[n].ino); }
         }
@@ -298,12 +304,14 @@ proof fn lemma_restored(m: Map<u64, Arc<PseudoInode>>, root: Arc<PseudoInode>, n
         let f = kids_upto(s, m, n, k);
         assert(mkids(m, h, k) == f);
         assert forall|x: int| 0 <= x < f.len() implies ({ let c = #[trigger] f[x]; m.contains_key(c.ino) && m[c.ino] == c && c.parent == k && c.ino != ROOT_ID }) by {
+            assert(kid_src(s, m, n, k, f[x]));
             let j = choose|j: int| 0 <= j < n && (#[trigger] s[j]).parent == k && f[x] == m[s[j].ino];
             assert(m.contains_key(s[j].ino));
         }
         assert forall|c: u64| #[trigger] kid_inos(f).contains(c) <==> listed_under(l, c, k) by {
             if kid_inos(f).contains(c) {
                 let x = choose|x: int| 0 <= x < kid_inos(f).len() && kid_inos(f)[x] == c;
+                assert(kid_src(s, m, n, k, f[x]));
                 let j = choose|j: int| 0 <= j < n && (#[trigger] s[j]).parent == k && f[x] == m[s[j].ino];
                 assert(s[j].ino == c && s[j].parent == k); assert(listed_under(s, c, k));
             }
@@ -334,6 +342,114 @@ proof fn lemma_restored(m: Map<u64, Arc<PseudoInode>>, root: Arc<PseudoInode>, n
     assert forall|i: int| 0 <= i < l.len() implies t.nodes[(#[trigger] l[i]).ino] == (l[i].parent, l[i].name) by { assert(listed(l, l[i].ino)); }
     assert forall|k: u64| #[trigger] t.children.contains_key(k) implies incr(t.children[k]) && (forall|c: u64| #[trigger] t.children[k].contains(c) <==> listed_under(l, c, k)) by {
         assert(m.contains_key(k)); assert(t.children[k] == kid_inos(mkids(m, h, k)));
+    }
+}
+// ---- save: the listing built from the values of the table in iteration order, the root skipped
+spec fn node_stv(a: Arc<PseudoInode>) -> StV { StV { ino: a.ino, parent: a.parent, name: a.name@ } }
+spec fn states_upto(vs: Seq<Arc<PseudoInode>>, n: int) -> Seq<StV> decreases n {
+    if n <= 0 { Seq::empty() } else if vs[n - 1].ino == ROOT_ID { states_upto(vs, n - 1) } else { states_upto(vs, n - 1).push(node_stv(vs[n - 1])) }
+}
+spec fn saved_from(m: Map<u64, Arc<PseudoInode>>, l: Seq<StV>, vs: Seq<Arc<PseudoInode>>) -> bool { vs.len() == m.len() && vs.to_set() == m.values() && l == states_upto(vs, vs.len() as int) }
+spec fn st_src(vs: Seq<Arc<PseudoInode>>, n: int, e: StV) -> bool { exists|j: int| 0 <= j < n && (#[trigger] vs[j]).ino != ROOT_ID && e == node_stv(vs[j]) }
+proof fn lemma_states_upto(vs: Seq<Arc<PseudoInode>>, n: int)
+    requires 0 <= n <= vs.len()
+    ensures forall|x: int| 0 <= x < states_upto(vs, n).len() ==> st_src(vs, n, #[trigger] states_upto(vs, n)[x]),
+            forall|j: int| 0 <= j < n && (#[trigger] vs[j]).ino != ROOT_ID ==> states_upto(vs, n).contains(node_stv(vs[j])),
+    decreases n
+{
+    if n > 0 {
+        lemma_states_upto(vs, n - 1);
+        let r = states_upto(vs, n - 1); let f = states_upto(vs, n);
+        assert forall|x: int| 0 <= x < f.len() implies st_src(vs, n, #[trigger] f[x]) by {
+            if x < r.len() { assert(st_src(vs, n - 1, r[x])); let j = choose|j: int| 0 <= j < n - 1 && (#[trigger] vs[j]).ino != ROOT_ID && r[x] == node_stv(vs[j]); assert(vs[j].ino != ROOT_ID && f[x] == node_stv(vs[j])); }
+            else { assert(vs[n - 1].ino != ROOT_ID && f[x] == node_stv(vs[n - 1])); }
+        }
+        assert forall|j: int| 0 <= j < n && (#[trigger] vs[j]).ino != ROOT_ID implies f.contains(node_stv(vs[j])) by {
+            if j < n - 1 { assert(r.contains(node_stv(vs[j]))); let x = choose|x: int| 0 <= x < r.len() && r[x] == node_stv(vs[j]); assert(f[x] == node_stv(vs[j])); }
+            else { assert(f[r.len() as int] == node_stv(vs[j])); }
+        }
+    }
+}
+proof fn lemma_states_distinct(m: Map<u64, Arc<PseudoInode>>, vs: Seq<Arc<PseudoInode>>, n: int)
+    requires 0 <= n <= vs.len(), vs.no_duplicates(), forall|k: u64| #[trigger] m.contains_key(k) ==> m[k].ino == k,
+             forall|j: int| 0 <= j < vs.len() ==> m.values().contains(#[trigger] vs[j])
+    ensures listing_wf(states_upto(vs, n))
+    decreases n
+{
+    if n > 0 {
+        lemma_states_distinct(m, vs, n - 1);
+        lemma_states_upto(vs, n - 1);
+        let r = states_upto(vs, n - 1); let f = states_upto(vs, n);
+        if vs[n - 1].ino != ROOT_ID {
+            assert forall|x: int, y: int| 0 <= x < y < f.len() implies (#[trigger] f[x]).ino != (#[trigger] f[y]).ino by {
+                if y == r.len() {
+                    assert(st_src(vs, n - 1, r[x]));
+                    let j = choose|j: int| 0 <= j < n - 1 && (#[trigger] vs[j]).ino != ROOT_ID && r[x] == node_stv(vs[j]);
+                    assert(m.values().contains(vs[j]) && m.values().contains(vs[n - 1]));
+                    let a = choose|a: u64| m.contains_key(a) && m[a] == vs[j]; let b = choose|b: u64| m.contains_key(b) && m[b] == vs[n - 1];
+                    if vs[j].ino == vs[n - 1].ino { assert(a == b); assert(vs[j] == vs[n - 1]); }
+                }
+            }
+            assert forall|x: int| 0 <= x < f.len() implies (#[trigger] f[x]).ino != ROOT_ID by { assert(st_src(vs, n, f[x])) by { lemma_states_upto(vs, n); } }
+        }
+    }
+}
+// the listing save_to_bytes builds from a well-formed, closed table describes exactly the tree of that table
+proof fn lemma_saved_listing(m: Map<u64, Arc<PseudoInode>>, root: Arc<PseudoInode>, next: u64, h: PHeap, vs: Seq<Arc<PseudoInode>>)
+    requires wf_m(m, root, h), forall|c: u64| #[trigger] m.contains_key(c) ==> m.contains_key(m[c].parent),
+             vs.len() == m.len(), vs.to_set() == m.values(),           // HashMap::values(): as many items as keys, the set of values
+    ensures ({ let l = states_upto(vs, vs.len() as int);
+               listing_wf(l) && listing_closed(l) && tree_matches(tree_m(m, next, h), next, l) }),       // [C19.pseudo.save.listing]
+{
+    let n = vs.len() as int; let l = states_upto(vs, n);
+    // each key's node is visited once
+    assert forall|a: u64, b: u64| m.contains_key(a) && m.contains_key(b) && #[trigger] m[a] == #[trigger] m[b] implies a == b by { assert(m[a].ino == a && m[b].ino == b); }
+    m.lemma_injective_values_len();
+    vs.lemma_no_dup_set_cardinality();
+    assert forall|j: int| 0 <= j < vs.len() implies m.values().contains(#[trigger] vs[j]) by { assert(vs.to_set().contains(vs[j])); }
+    lemma_states_distinct(m, vs, n);
+    lemma_states_upto(vs, n);
+    // an entry of the listing is a non-root node of the table with its own fields
+    assert forall|i: int| 0 <= i < l.len() implies m.contains_key((#[trigger] l[i]).ino) && l[i].ino != ROOT_ID && l[i] == node_stv(m[l[i].ino]) by {
+        assert(st_src(vs, n, l[i]));
+        let j = choose|j: int| 0 <= j < n && (#[trigger] vs[j]).ino != ROOT_ID && l[i] == node_stv(vs[j]);
+        assert(m.values().contains(vs[j])); let a = choose|a: u64| m.contains_key(a) && m[a] == vs[j]; assert(m[a].ino == a);
+    }
+    // every non-root node of the table is listed
+    assert forall|k: u64| m.contains_key(k) && k != ROOT_ID implies listed(l, k) by {
+        assert(m.values().contains(m[k])); assert(vs.to_set().contains(m[k]));
+        let j = choose|j: int| 0 <= j < vs.len() && vs[j] == m[k];
+        assert(vs[j].ino != ROOT_ID); assert(l.contains(node_stv(vs[j])));
+        let x = choose|x: int| 0 <= x < l.len() && l[x] == node_stv(vs[j]); assert(l[x].ino == k);
+    }
+    assert(listing_closed(l)) by {
+        assert forall|i: int| 0 <= i < l.len() implies (#[trigger] l[i]).parent == ROOT_ID || exists|j: int| 0 <= j < l.len() && (#[trigger] l[j]).ino == l[i].parent by {
+            let pk = m[l[i].ino].parent; assert(m.contains_key(pk));
+            if pk != ROOT_ID { assert(listed(l, pk)); }
+        }
+    }
+    let t = tree_m(m, next, h);
+    assert forall|k: u64| #[trigger] t.nodes.contains_key(k) <==> listed(l, k) by {
+        if listed(l, k) { let i = choose|i: int| 0 <= i < l.len() && (#[trigger] l[i]).ino == k; assert(m.contains_key(l[i].ino)); }
+    }
+    assert forall|k: u64| #[trigger] t.children.contains_key(k) <==> (k == ROOT_ID || listed(l, k)) by {
+        if listed(l, k) { let i = choose|i: int| 0 <= i < l.len() && (#[trigger] l[i]).ino == k; assert(m.contains_key(l[i].ino)); }
+    }
+    assert forall|k: u64| #[trigger] t.children.contains_key(k) implies incr(t.children[k]) && (forall|c: u64| #[trigger] t.children[k].contains(c) <==> listed_under(l, c, k)) by {
+        let ks = mkids(m, h, k);
+        assert(t.children[k] == kid_inos(ks));
+        assert forall|c: u64| #[trigger] kid_inos(ks).contains(c) <==> listed_under(l, c, k) by {
+            if kid_inos(ks).contains(c) {
+                let x = choose|x: int| 0 <= x < kid_inos(ks).len() && kid_inos(ks)[x] == c;
+                let cn = ks[x]; assert(m.contains_key(cn.ino) && m[cn.ino] == cn && cn.parent == k && cn.ino != ROOT_ID);
+                assert(listed(l, c)); let i = choose|i: int| 0 <= i < l.len() && (#[trigger] l[i]).ino == c; assert(l[i] == node_stv(m[l[i].ino]));
+            }
+            if listed_under(l, c, k) {
+                let i = choose|i: int| 0 <= i < l.len() && (#[trigger] l[i]).ino == c && l[i].parent == k;
+                assert(l[i] == node_stv(m[l[i].ino])); assert(m.contains_key(c) && c != ROOT_ID && m[c].parent == k);
+                assert(ks.contains(m[c])); let x = choose|x: int| 0 <= x < ks.len() && ks[x] == m[c]; assert(kid_inos(ks)[x] == c);
+            }
+        }
     }
 }
 spec fn tree_m(m: Map<u64, Arc<PseudoInode>>, next: u64, h: PHeap) -> PTree {
@@ -368,7 +484,167 @@ def unit(root='/repo'):
              requires=['old(hp).kids.contains_key(self.cell())'],
              ensures=['final(hp).kids == old(hp).kids.insert(self.cell(), old(hp).kids[self.cell()].push(child)) // [C19.pseudo.insert_child] appended after the existing children; every other directory untouched'])
     ins.rules, ins.ghost_token = ('R23',), dict(TOK, callees=[])
-    items.append(Group('impl PseudoInode {', [new, ins]))
+    # remove_child: `.iter().position(..).map(|pos| children.remove(pos)).unwrap()` (closure mutating a captured vector) - contract only, listed
+    rmc = Fn(PFS, 'impl PseudoInode', 'remove_child', props=P, external_body=True,
+             requires=['old(hp).kids.contains_key(self.cell())'],
+             ensures=['final(hp).kids.dom() == old(hp).kids.dom() && (forall|c: int| c != self.cell() && old(hp).kids.contains_key(c) ==> final(hp).kids[c] == #[trigger] old(hp).kids[c])'])
+    rmc.rules, rmc.ghost_token = ('R23',), dict(TOK, callees=[])
+    items.append(Group('impl PseudoInode {', [new, ins, rmc]))
+    PP = 'impl PseudoFs'
+    CLONE_ST = (r'state\.inodes\.clone\(\)', 'clone_states(&state.inodes)', 'Vec<PseudoInodeState>::clone with the derived Clone: field by field')
+    SORT = (r'state_inodes\.sort_by\(\|a, b\| a\.ino\.cmp\(&b\.ino\)\);', 'sort_states_by_ino(&mut state_inodes);', 'slice::sort_by with the comparison of the `ino` fields: a sorted permutation')
+    GETMUT = (r'inode_map\.get_mut\(', 'inode_map.get(', '`&mut Arc<PseudoInode>` used for a `&self` method only: shared lookup')
+    NEWCALL = (r'PseudoInode::new\(((?:[^()]|\([^()]*\))*?),?\s*\)', r'PseudoInode::new(\1, Tracked(hp))', 'ghost heap token (R23) for the associated function')
+    LOOP1 = '''for inode in it1: state_inodes.iter()
+                invariant
+                    l == stvs(state_inodes@), state_inodes@.len() == l.len(), it1.index@ <= l.len(),
+                    l == stvs(state.inodes@), forall|c: int| #[trigger] h0.kids.contains_key(c) ==> hp.kids.contains_key(c) && hp.kids[c] == h0.kids[c],
+                    forall|k: u64| #[trigger] inode_map@.contains_key(k) ==> inode_map@[k].ino == k && hp.kids.contains_key(inode_map@[k].cell())
+                        && !h0.kids.contains_key(inode_map@[k].cell()) && hp.kids[inode_map@[k].cell()] == Seq::<Arc<PseudoInode>>::empty(),
+                    forall|k: u64, j: u64| inode_map@.contains_key(k) && inode_map@.contains_key(j) && (#[trigger] inode_map@[k]).cell() == (#[trigger] inode_map@[j]).cell() ==> k == j,
+                    forall|k: u64| #[trigger] inode_map@.contains_key(k) <==> (exists|j: int| 0 <= j < it1.index@ && (#[trigger] l[j]).ino == k),
+                    listing_wf(l) ==> forall|j: int| 0 <= j < it1.index@ ==> inode_map@[(#[trigger] l[j]).ino].parent == l[j].parent && inode_map@[l[j].ino].name@ == l[j].name, // [C19.pseudo.restore.node_fields]
+            {
+                let ghost j1 = it1.index@; let ghost m1 = inode_map@;
+                proof { assert(stvs(state_inodes@)[j1] == stv(state_inodes@[j1])); }'''
+    LOOP2 = '''for inode in it2: state_inodes.iter()
+                invariant
+                    s == stvs(state_inodes@), state_inodes@.len() == s.len(), it2.index@ <= s.len(), inode_map@ == m, sorted_perm(l, s, p, q), l == stvs(state.inodes@), good ==> listing_wf(l),
+                    forall|k: u64| #[trigger] m.contains_key(k) ==> m[k].ino == k && hp.kids.contains_key(m[k].cell()),
+                    forall|k: u64, j: u64| m.contains_key(k) && m.contains_key(j) && (#[trigger] m[k]).cell() == (#[trigger] m[j]).cell() ==> k == j,
+                    forall|k: u64| #[trigger] m.contains_key(k) <==> (k == ROOT_ID || listed(l, k)),
+                    listing_wf(l) ==> forall|j: int| 0 <= j < l.len() ==> m[(#[trigger] l[j]).ino].parent == l[j].parent && m[l[j].ino].name@ == l[j].name,
+                    good ==> forall|k: u64| #[trigger] m.contains_key(k) ==> hp.kids[m[k].cell()] == kids_upto(s, m, it2.index@ as int, k), // [C19.pseudo.restore.children]
+                    forall|j: int| 0 <= j < it2.index@ ==> m.contains_key(m[(#[trigger] s[j]).ino].parent),
+            {
+                let ghost j2 = it2.index@; let ghost hb = *hp;
+                proof {
+                    assert(stvs(state_inodes@)[j2] == stv(state_inodes@[j2]));
+                    assert(s[j2] == l[p[j2]]); assert(listed(l, l[p[j2]].ino));
+                    if listing_wf(l) && listing_closed(l) {       // a listing that names every inode once together with its parent is accepted
+                        let pj = p[j2];
+                        assert(m[l[pj].ino].parent == l[pj].parent);
+                        if l[pj].parent != ROOT_ID { let x = choose|x: int| 0 <= x < l.len() && (#[trigger] l[x]).ino == l[pj].parent; assert(listed(l, l[x].ino)); }
+                        assert(m.contains_key(m[s[j2].ino].parent));
+                    }
+                }'''
+    rfs = Fn(PFS, PP, 'restore_from_state', props=P, canary=True, sig_subst=R25, body_resub=[CLONE_ST, SORT, GETMUT, STRCLONE, NEWCALL],
+             body_subst=[('let mut inode_map = HashMap::new();', 'let mut inode_map: HashMap<u64, Arc<PseudoInode>> = HashMap::new();')],     # type annotation only (the ghost invariants mention the map before inference reaches it)
+             requires=['old(self).wf(*old(hp))'],
+             ensures=['r is Ok && listing_wf(stvs(state.inodes@)) && {T0}.is_fresh() ==> tree_matches({T1}, state.next_inode, stvs(state.inodes@)) // [C19.pseudo.restore.tree] same numbers, parents, names; directory order by inode number; next_inode continues where it was'.replace('{T0}', T0).replace('{T1}', T1),
+                      'r is Ok && listing_wf(stvs(state.inodes@)) && %s.is_fresh() ==> final(self).wf(*final(hp)) && final(self).closed() // [C19.pseudo.restore.wf]' % T0,
+                      'listing_wf(stvs(state.inodes@)) && listing_closed(stvs(state.inodes@)) ==> r is Ok // [C19.pseudo.restore.accepts_closed] what save_to_bytes writes for a closed table is accepted',
+                      'r is Err ==> final(self).inodes == old(self).inodes && final(self).next_inode == old(self).next_inode'],
+             splices=[('let mut state_inodes = clone_states(&state.inodes);', 'after', '''let ghost l = stvs(state_inodes@); let ghost h0 = *hp;
+            let ghost good = listing_wf(l) && old(self).tree(*old(hp)).is_fresh();
+            proof { assert(old(self).tree(h0).children.contains_key(ROOT_ID)); }'''),
+                      ('for inode in state_inodes.iter() {', 'replace', LOOP1, 'for inode in state_inodes.iter() {\n                let inode = Arc::new('),
+                      ('inode_map.insert(inode.ino, inode);', 'after', '''proof {
+                    assert forall|k: u64| #[trigger] inode_map@.contains_key(k) <==> (exists|j: int| 0 <= j < j1 + 1 && (#[trigger] l[j]).ino == k) by {
+                        if k == l[j1].ino { } else if m1.contains_key(k) { let j = choose|j: int| 0 <= j < j1 && (#[trigger] l[j]).ino == k; assert(0 <= j < j1 + 1); }
+                        if exists|j: int| 0 <= j < j1 + 1 && (#[trigger] l[j]).ino == k { let j = choose|j: int| 0 <= j < j1 + 1 && (#[trigger] l[j]).ino == k; if j < j1 { assert(m1.contains_key(k)); } }
+                    }
+                }'''),
+                      ('inode_map.insert(self.root_inode.ino, self.root_inode.clone());', 'after', '''proof {
+                assert forall|k: u64| #[trigger] inode_map@.contains_key(k) <==> (k == ROOT_ID || listed(l, k)) by {
+                    if listed(l, k) { let j = choose|j: int| 0 <= j < l.len() && (#[trigger] l[j]).ino == k; assert(0 <= j < l.len()); }
+                }
+            }'''),
+                      ('sort_states_by_ino(&mut state_inodes);', 'after', '''let ghost s = stvs(state_inodes@); let ghost m = inode_map@;
+            let ghost (p, q) = choose|p: Seq<int>, q: Seq<int>| #[trigger] sorted_perm(l, s, p, q);
+            proof { if good { assert(hp.kids[self.root_inode.cell()] == Seq::<Arc<PseudoInode>>::empty()) by { assert(kid_inos(h0.kids[self.root_inode.cell()]).len() == 0); } } }'''),
+                      ('for inode in state_inodes.iter() {', 'replace', LOOP2),
+                      ('parent.insert_child(inode, Tracked(hp));', 'after', '''proof {
+                    if good {
+                        let pk = m[s[j2].ino].parent;
+                        assert(s[j2] == l[p[j2]]); assert(pk == s[j2].parent); // [C19.pseudo.restore.node_fields]
+                        assert forall|k: u64| #[trigger] m.contains_key(k) implies hp.kids[m[k].cell()] == kids_upto(s, m, j2 + 1, k) by { // [C19.pseudo.restore.children] appended to the children of ITS parent, nobody else's
+                            if k == pk { } else { assert(m[k].cell() != m[pk].cell()); assert(hp.kids[m[k].cell()] == hb.kids[m[k].cell()]); }
+                        }
+                    }
+                }'''),
+                      ('Ok(())', 'before', '''proof {
+                if good {
+                    assert forall|j: int| 0 <= j < s.len() implies m.contains_key((#[trigger] s[j]).parent) by { assert(s[j] == l[p[j]]); assert(listed(l, l[p[j]].ino)); assert(m[l[p[j]].ino].parent == l[p[j]].parent); }
+                    lemma_restored(m, self.root_inode, state.next_inode, *hp, l, s, p, q);
+                }
+            }''')])
+    rfs.rules, rfs.ghost_token = ('R23',), dict(TOK, callees=['insert_child'])
+    gvm = Fn(PFS, PP, 'get_version_map', props=P, canary=True,
+             ensures=['r@.len() == 1 // [C19.pseudo.version_map.latest] one root version',
+                      'forall|root: u16| tv(r@, root, TypeId::PseudoFsState) == 1 && tv(r@, root, TypeId::PseudoInodeState) == 1 // [C19.pseudo.version_map.layout] the only layout the derive knows'],
+             splices=[('^', 'after', 'proof { reveal_with_fuel(tv_rec, 3); }')])
+    rfb = Fn(PFS, PP, 'restore_from_bytes', props=P, canary=True, sig_subst=R25, gtag_props={'snapver': ['C19']},
+             requires=['old(self).wf(*old(hp))'],
+             ensures=VP.pseudo_clauses(VP.PSEUDO_RESTORE_ENS, T, T0, T1)
+             + ['r is Ok && %s.is_fresh() && ptree_img_wf(old(buf)@) ==> final(self).wf(*final(hp)) && final(self).closed() // [C19.pseudo.restore.wf]' % T0,
+                'final(buf)@ == old(buf)@'],
+             splices=[('self.restore_from_state(&state, Tracked(hp))', 'before', '''proof {
+                assert(buf@.take(buf@.len() as int) =~= buf@);
+                let d = snap_dec::<PseudoFsState>(buf@)->Some_0;
+                assert(state.next_inode == d.1.next_inode && stvs(state.inodes@) == d.1.inodes);
+                if listing_wf(d.1.inodes) {
+                    // a listing describes at most one tree: whatever restore_from_state builds from it IS ptree_dec of the image
+                    assert forall|t: PTree| #[trigger] tree_matches(t, d.1.next_inode, d.1.inodes) implies Some(t) == ptree_dec(buf@) by {
+                        lemma_tree_unique(t, ptree_dec(buf@)->Some_0, d.1.next_inode, d.1.inodes);
+                    }
+                }
+            }''')])
+    rfb.rules, rfb.ghost_token = ('R23',), dict(TOK, callees=['restore_from_state'])
+    HOIST = (r'for inode in self\.inodes\.load\(\)\.values\(\) \{', 'let inodes_guard = self.inodes.load(); for inode in inodes_guard.values() {',
+             'the temporary of the `for` iterator expression (it lives for the whole loop) bound to a name: Verus binds the iterator itself with `let`')
+    SAVE_LOOP = '''for inode in it: inodes_guard.values()
+                invariant
+                    self.wf(*hp), self.closed(),
+                    it.snapshot@.remaining().len() == self.im().len(), it.snapshot@.remaining().unref().to_set() == self.im().values(),
+                    it.index@ <= it.snapshot@.remaining().len(),
+                    stvs(inodes@) == states_upto(it.snapshot@.remaining().unref(), it.index@ as int), // [C19.pseudo.save.every_inode]
+                ensures
+                    saved_from(self.im(), stvs(inodes@), it.snapshot@.remaining().unref()),
+            {
+                let ghost vs = it.snapshot@.remaining().unref(); let ghost j0 = it.index@ as int; let ghost before = inodes@;
+                proof { assert(*inode == vs[j0]); }'''
+    sv = Fn(PFS, PP, 'save_to_bytes', props=P, canary=True, gtag_props={'snapver': ['C19']}, body_resub=[STRCLONE, HOIST],
+            body_subst=[('let mut inodes = Vec::new();', 'let mut inodes: Vec<PseudoInodeState> = Vec::new();')],     # type annotation only
+            requires=['self.wf(*hp)',
+                      # what is written can only be read back if every listed inode's parent is listed too
+                      'self.closed() // [C19.pseudo.save.closed]'],
+            ensures=VP.pseudo_clauses(VP.PSEUDO_SAVE_ENS, T, T0, T1),
+            splices=[('for inode in inodes_guard.values() {', 'replace', SAVE_LOOP),
+                     ('// no need to save the root inode', 'after', 'proof { assert(states_upto(vs, j0 + 1) == states_upto(vs, j0)); } // [C19.pseudo.save.every_inode] only the root is skipped'),
+                     ('name: string_clone(&inode.name),\n                });', 'after', '''proof {
+                    let last = inodes@[inodes@.len() - 1];
+                    assert(stvs(inodes@) =~= stvs(before).push(stv(last)));
+                    assert(states_upto(vs, j0 + 1) == states_upto(vs, j0).push(node_stv(vs[j0]))); // [C19.pseudo.save.every_inode]
+                }'''),
+                     ('let vm = PseudoFs::get_version_map();', 'before', '''let ghost vs = choose|vs: Seq<Arc<PseudoInode>>| #[trigger] saved_from(self.im(), stvs(state.inodes@), vs);
+            proof { lemma_saved_listing(self.im(), self.root_inode, next_inode, *hp, vs); }'''),
+                     ('Ok(buf)', 'before', '''proof {
+                let i = PImg { next_inode: state.next_inode, inodes: stvs(state.inodes@) };
+                assert(buf@ =~= snap_enc::<PseudoFsState>(1u16, i));
+                assert(listing_wf(i.inodes) && listing_closed(i.inodes) && tree_matches(self.tree(*hp), i.next_inode, i.inodes));   // [C19.pseudo.save.image]
+            }''')])
+    sv.rules, sv.ghost_token = ('R23', 'R34'), dict(param='Tracked(hp): Tracked<&PHeap>', arg='Tracked(hp)', callees=[])
+    LOADCLONE = (r'self\.inodes\.load\(\)\.deref\(\)\.deref\(\)\.clone\(\)', 'self.inodes.load_clone()', 'snapshot of the table held by the cell (Guard -> Arc -> HashMap, cloned)')
+    KIDSLOAD = (r'inode\.children\.load\(\)', 'inode.children.load(Tracked(hp))', 'every: ghost heap token (R23) for a load of the children cell')
+    rmi = Fn(PFS, PP, 'remove_inode', props=P, sig_subst=R25, body_resub=[LOADCLONE],
+             ensures=['final(self).im() == old(self).im().remove(inode.ino) && final(self).next_inode == old(self).next_inode && final(self).root_inode == old(self).root_inode // [C19.pseudo.remove_inode]'])
+    ev = Fn(PFS, PP, 'evict_inode', props=P, canary=True, sig_subst=R25, body_resub=[KIDSLOAD],
+            requires=['old(self).wf(*old(hp))', 'old(self).closed()', 'old(self).im().contains_key(ino)'],
+            ensures=['final(self).im() == old(self).im() || final(self).im() == old(self).im().remove(ino)',
+                     # umount with `remove_pseudo_root` evicts the mount point's directory: what stays in the table must still be restorable
+                     'final(self).closed() // [C19.pseudo.evict.closed] no pseudo directory is left without its parent: a later save can be restored'],
+            splices=[('^', 'after', 'proof { assert(old(self).im().contains_key(old(self).im()[ino].parent)); }'),
+                     ('self.remove_inode(inode);', 'after', '''proof {
+            // a directory whose children vector is empty is nobody's parent
+            assert forall|c: u64| #[trigger] self.im().contains_key(c) implies self.im().contains_key(self.im()[c].parent) by { // [C19.pseudo.evict.closed]
+                let o = old(self).im();
+                assert(o.contains_key(c) && c != ino);
+                if o[c].parent == ino && c != ROOT_ID { assert(mkids(o, *old(hp), ino).contains(o[c])); }
+            }
+        }''')])
+    ev.rules, ev.ghost_token = ('R23',), dict(TOK, callees=['remove_child'])
+    items.append(Group('impl PseudoFs {', [gvm, rfs, rfb, sv, rmi, ev]))
     u = Unit('pseudopersist', items, preludes=['base.rs'], generic_tags={'snapver': ['C19']})
     u.cfg_features = {'persist'}
     return u
